@@ -155,6 +155,12 @@ def param_cases(draw):
     diagonal = draw(st.booleans())
     u = draw(u_matrices(N, K))
     w = draw(w_matrices(K, diagonal))
+    # magnitudes: the identities are homogeneous, they must hold for tiny parameters as well
+    # (all tolerances below are relative to M = (sum u)^T w (sum u))
+    su = draw(st.sampled_from([1.0, 1.0, 1.0, 1e-3, 1e-6, 1e-8]))
+    sw = draw(st.sampled_from([1.0, 1.0, 1.0, 1e-12, 1e3]))
+    u = [[x * su for x in r] for r in u]
+    w = [[x * sw for x in r] for r in w]
     dims = draw(st.lists(st.integers(2, D), min_size=1, max_size=D - 1, unique=True))
     return {"N": N, "K": K, "D": D, "diagonal": diagonal, "u": u, "w": w, "dims": dims,
             "perm": draw(S.seeds)}
@@ -430,6 +436,11 @@ def fit_cases(draw, ascent=False, supplies=("u", "w", "u", "w", "both", "none"),
         case["n_iter"] = draw(st.sampled_from([8, 12, 20] if dying else [1, 2, 3, 5, 8, 12, 20]))
         case["tolerance"] = draw(st.sampled_from([None, None, 1e-3]))
         case["check_every"] = draw(st.sampled_from([1, 2, 10]))
+    else:
+        # the tolerance criterion may stop the run early: the sequence over n_iter must still
+        # ascend (it becomes constant once the criterion is met)
+        case["tolerance"] = draw(st.sampled_from([None, 1e-1, 1e-2, 1e-3]))
+        case["check_every"] = draw(st.sampled_from([1, 1, 2]))
     return case
 
 
@@ -605,7 +616,11 @@ def check_em_ascent(case, ctx):
     values, plain = [], []
     for n in N_ITERS:
         model, u, _ = new_model(u_case, N)
-        model.fit(h, n_iter=n)
+        if case.get("tolerance") is None:
+            model.fit(h, n_iter=n)
+        else:
+            model.fit(h, n_iter=n, tolerance=case["tolerance"],
+                      check_convergence_every=case["check_every"])
         W = np.asarray(model.w, dtype=float)
         require(W.shape == (K, K) and np.isfinite(W).all() and (W >= 0).all(),
                 lambda: "after fit(n_iter=%d) w = %r" % (n, W.tolist()), key="w_invalid")
@@ -634,6 +649,7 @@ def check_em_ascent(case, ctx):
             increased = True
     if increased:
         ctx.label("objective strictly increased")
+    ctx.label("tolerance:%s" % case.get("tolerance"))
     ctx.nontrivial(K >= 2 and data_max_size(case) >= 3 and increased)
 
 
